@@ -99,6 +99,7 @@ def h_csv(axes_per_metric, variants, small=False, with_missing_time=True):
         drv = load.modules["verif.driver"]
         inp = load.modules["verif.input"]
         S.allow_realize(True)
+        S.constants_as_doubles()
         S.messages_may_format_numbers()
         names = metric_names() + DIAGRAMS
         mi = S.choose("metric", len(names))
@@ -144,6 +145,7 @@ def h_text_variants():
         drv = load.modules["verif.driver"]
         inp = load.modules["verif.input"]
         S.allow_realize(True)
+        S.constants_as_doubles()
         S.messages_may_format_numbers()
         name = metrics[S.choose("metric", len(metrics))]
         axis = axes[S.choose("axis", len(axes))]
@@ -188,6 +190,7 @@ def h_plot(n_types, variants, with_missing_time=False):
         out = load.modules["verif.output"]
         util = load.modules["verif.util"]
         S.allow_realize(True)
+        S.constants_as_doubles()
         S.messages_may_format_numbers()
         names = ALL_DIAGRAMS + ["mae", "ets", "bs", "corr", "quantilescore", "pit"]
         mi = S.choose("metric", len(names))
@@ -241,6 +244,7 @@ def h_plot_bins():
         out = load.modules["verif.output"]
         util = load.modules["verif.util"]
         S.allow_realize(True)
+        S.constants_as_doubles()
         S.messages_may_format_numbers()
         name = ALL_DIAGRAMS[S.choose("diagram", len(ALL_DIAGRAMS))]
         b = BIN_TYPES[S.choose("bin", len(BIN_TYPES))]
@@ -276,6 +280,147 @@ def h_plot_bins():
     return fn
 
 
+KINDS = ["deterministic (text-like: no probabilistic columns, zero-member ensemble)", "deterministic (NetCDF-like: fields absent)",
+         "probabilistic (cdf, quantiles, pit; no ensemble)", "ensemble only"]
+
+
+def build_kind(S, kind, n):
+    """n concrete inputs of one dataset kind (what a text / NetCDF file of that kind looks like to Data)."""
+    MI = common.input_class()
+    T, L, P = 2, 2, 2
+    shape = (T, L, P)
+    times = [1704067200 + 86400 * 40 * i for i in range(T)]
+    rng = np.random.RandomState(11)
+    ins = []
+    for k in range(n):
+        def arr(extra=(), lo=0.0, hi=4.0, sort=False):
+            vals = np.round(rng.uniform(lo, hi, shape + tuple(extra)), 2)
+            if sort:
+                vals = np.sort(vals, axis=-1)
+            return S.const(vals)
+        kw = {}
+        if kind == 0:
+            kw = dict(ensemble=S.const(np.zeros(shape + (0,))), thresholds=S.const([]), threshold_scores=S.const(np.zeros(shape + (0,))),
+                      quantiles=S.const([]), quantile_scores=S.const(np.zeros(shape + (0,))))
+        elif kind == 2:
+            kw = dict(pit=arr(lo=0, hi=1), thresholds=S.const([1.0, 3.0]), threshold_scores=arr((2,), 0, 1, True),
+                      quantiles=S.const([0.1, 0.9]), quantile_scores=arr((2,), sort=True))
+        elif kind == 3:
+            kw = dict(ensemble=arr((3,)))
+        ins.append(MI("%s.txt" % "AB"[k], common.int_array(S, times), S.vector([0.0, 30.0]),
+                      common.locations([3, 9], [60.0, 61.0], [10.0, 11.0], [50.0, 300.0]), obs=arr(), fcst=arr(), **kw))
+    return ins
+
+
+def h_dataset_kinds():
+    """Every metric and diagram x dataset kind (deterministic, probabilistic, ensemble) x one or two input
+    files x (plot | rank | csv) x (default, -q, -r): what a dataset cannot support must end in an error exit."""
+    extra = [[], ["-q", "0.1,0.9"], ["-r", "1"]]
+    types = ["plot", "rank", "csv"]
+
+    def fn(S):
+        from symx import mplstub
+        drv = load.modules["verif.driver"]
+        inp = load.modules["verif.input"]
+        out = load.modules["verif.output"]
+        util = load.modules["verif.util"]
+        S.allow_realize(True)
+        S.constants_as_doubles()
+        S.messages_may_format_numbers()
+        names = metric_names() + ALL_DIAGRAMS
+        name = names[S.choose("metric", len(names))]
+        kind = S.choose("kind", len(KINDS))
+        n = 1 + S.choose("inputs", 2)
+        ptype = types[S.choose("type", len(types))]
+        if name in ALL_DIAGRAMS and ptype == "rank":
+            ptype = "plot"
+        x = extra[S.choose("extra", len(extra))]
+        ins = build_kind(S, kind, n)
+        files = {"A.txt": ins[0]}
+        if n == 2:
+            files["B.txt"] = ins[1]
+        stub = mplstub.Pyplot()
+        saved = (inp.get_input, out.mpl, util.mpl)
+        inp.get_input = lambda f: files[f]
+        out.mpl = stub
+        util.mpl = stub
+        argv = ["verif"] + sorted(files) + ["-m", name, "-type", ptype, "-f", "out.png"] + x
+        code, crash = None, None
+        try:
+            try:
+                drv.run(argv)
+            except SystemExit as e:
+                code = e.code if e.code is not None else 0
+            except Exception as e:
+                from symx.explore import _where
+                import traceback
+                text = "%s: %s" % (type(e).__name__, e)
+                frames = traceback.extract_tb(e.__traceback__)
+                if any("mplstub" in fr.filename for fr in frames) or "Generic" in text or "_CallableOrObject" in text:
+                    S.note("stub limitation: %s" % text[:100])
+                    return
+                crash = "%s@%s" % (type(e).__name__, _where(e.__traceback__))
+        finally:
+            inp.get_input, out.mpl, util.mpl = saved
+        what = "%d input(s), %s: %s" % (n, KINDS[kind].split(" (")[0] + ("/text" if kind == 0 else "/nc" if kind == 1 else ""), " ".join(argv[1 + n:]))
+        S.prove("no-unhandled-exception-before-the-draw-calls", crash is None, detail="%s: %s" % (what, crash))
+        S.prove("error-exits-are-non-zero", code is None or code != 0, detail=what)
+    return fn
+
+
+def h_map_longitudes():
+    """Map output types x longitude conventions of the locations (both hemispheres, across the date line,
+    0..360 with a span above 180 degrees)."""
+    lonsets = [[10.0, 11.0], [-170.0, 170.0], [5.0, 200.0], [-10.0, 20.0], [190.0, 350.0]]
+    types = ["map", "maprank", "mapimpact"]
+
+    def fn(S):
+        from symx import mplstub
+        drv = load.modules["verif.driver"]
+        inp = load.modules["verif.input"]
+        out = load.modules["verif.output"]
+        util = load.modules["verif.util"]
+        MI = common.input_class()
+        S.allow_realize(True)
+        S.constants_as_doubles()
+        lons = lonsets[S.choose("longitudes", len(lonsets))]
+        ptype = types[S.choose("type", len(types))]
+        shape = (2, 1, 2)
+        rng = np.random.RandomState(5)
+        files = {}
+        for nm in ("A", "B"):
+            files[nm + ".txt"] = MI(nm + ".txt", common.int_array(S, [1704067200, 1704067200 + 86400]), S.vector([0.0]),
+                                    common.locations([3, 9], [60.0, 61.0], lons, [50.0, 300.0]),
+                                    obs=S.const(np.round(rng.uniform(0, 4, shape), 2)), fcst=S.const(np.round(rng.uniform(0, 4, shape), 2)))
+        stub = mplstub.Pyplot()
+        saved = (inp.get_input, out.mpl, util.mpl)
+        inp.get_input = lambda f: files[f]
+        out.mpl = stub
+        util.mpl = stub
+        argv = ["verif", "A.txt", "B.txt", "-m", "mae", "-type", ptype, "-f", "out.png"]
+        code, crash = None, None
+        try:
+            try:
+                drv.run(argv)
+            except SystemExit as e:
+                code = e.code if e.code is not None else 0
+            except Exception as e:
+                from symx.explore import _where
+                import traceback
+                text = "%s: %s" % (type(e).__name__, e)
+                frames = traceback.extract_tb(e.__traceback__)
+                if any("mplstub" in fr.filename for fr in frames) or "Generic" in text or "_CallableOrObject" in text:
+                    S.note("stub limitation: %s" % text[:100])
+                    return
+                crash = "%s@%s" % (type(e).__name__, _where(e.__traceback__))
+        finally:
+            inp.get_input, out.mpl, util.mpl = saved
+        what = "-m mae -type %s, longitudes %s" % (ptype, lons)
+        S.prove("no-unhandled-exception-before-the-draw-calls", crash is None, detail="%s: %s" % (what, crash))
+        S.prove("error-exits-are-non-zero", code is None or code != 0, detail=what)
+    return fn
+
+
 def h_plot_axes():
     """Every diagram x every -x dimension (x -q / -agg variants) on the ordinary dataset."""
     extra = [[], ["-q", "0.1,0.9"], ["-agg", "median"], ["-simple"]]
@@ -287,6 +432,7 @@ def h_plot_axes():
         out = load.modules["verif.output"]
         util = load.modules["verif.util"]
         S.allow_realize(True)
+        S.constants_as_doubles()
         S.messages_may_format_numbers()
         name = ALL_DIAGRAMS[S.choose("diagram", len(ALL_DIAGRAMS))]
         axis = AXES[S.choose("axis", len(AXES))]
@@ -334,6 +480,8 @@ def harnesses(tier):
     hs.append(Harness("driver_plot", h_plot(len(PLOT_TYPES) if thorough else 3, pvariants, with_missing_time=thorough),
                       "every diagram and output type up to the pyplot boundary (recording stub)", path_budget_s=60, max_paths=400000))
     hs.append(Harness("driver_plot_bins", h_plot_bins(), "every diagram x 8 bin types x 1/2/4 thresholds up to the pyplot boundary", path_budget_s=60))
+    hs.append(Harness("driver_dataset_kinds", h_dataset_kinds(), "every metric / diagram x 4 dataset kinds x 1 or 2 inputs x plot/rank/csv x (default, -q, -r)", path_budget_s=60, max_paths=60000))
+    hs.append(Harness("driver_map_longitudes", h_map_longitudes(), "map output types x longitude conventions of the locations", path_budget_s=60))
     hs.append(Harness("driver_plot_axes", h_plot_axes(), "every diagram x 19 -x dimensions x (default, -q, -agg median, -simple) up to the pyplot boundary", path_budget_s=60))
     if thorough:
         hs.append(Harness("driver_csv_text.tiny", h_csv(len(AXES), variants, small=True), "single time, single lead time, single location"))
